@@ -129,6 +129,20 @@ func TestC09(t *testing.T) {
 				v.App.AccountKeeper.SetAccount(v.Ctx, a)
 			}
 		}
+		// one case in four: the bank has transfers switched off (by default, or for the vesting denomination) - how a
+		// chain launches before its token becomes transferable.  Whatever that means for the message, it must not
+		// make it replace an account.
+		transfersOff := ""
+		switch rapid.IntRange(0, 7).Draw(t, "bankTransfersOff") {
+		case 0:
+			transfersOff = "default"
+			bp := v.App.BankKeeper.GetParams(v.Ctx)
+			bp.DefaultSendEnabled = false
+			v.App.BankKeeper.SetParams(v.Ctx, bp)
+		case 1:
+			transfersOff = Denom
+			v.App.BankKeeper.SetParams(v.Ctx, v.App.BankKeeper.GetParams(v.Ctx).SetSendEnabledParam(Denom, false))
+		}
 		// before the target account comes into being, a node may have estimated the gas of transactions that
 		// create an account at the address it is going to have (simulations: executed in check mode, thrown away)
 		simulatedEarlier := 0
@@ -302,6 +316,6 @@ func TestC09(t *testing.T) {
 		}
 		nt := tk != 0
 		st.Case(nt, map[string]interface{}{"target": targetKinds[tk], "msg": fmt.Sprintf("%T", msg), "signer": signerIdx, "m": fmt.Sprint(msg)},
-			append(append(append(append(v.TxClasses(), map[bool][]string{true: {"chain_with_more_than_150_accounts"}}[crowded]...), map[bool][]string{true: {"creation_at_the_target_address_simulated_before_the_target_existed"}}[simulatedEarlier > 0 && (tk == 3 || tk >= 6)]...), "target_"+targetKinds[tk], fmt.Sprintf("msg_%T", msg), fmt.Sprintf("accepted_%v", res.OK()), fmt.Sprintf("panic_%v", res.Panic != nil)), fmt.Sprintf("sender_%s_splitlike_accepted_%v", []string{"not_staking", "delegated_vesting", "delegated_free"}[senderDelegation], splitLike && res.OK()))...)
+			append(append(append(append(v.TxClasses(), append(map[bool][]string{true: {"chain_with_more_than_150_accounts"}}[crowded], map[bool][]string{true: {"bank_transfers_switched_off"}}[transfersOff != ""]...)...), map[bool][]string{true: {"creation_at_the_target_address_simulated_before_the_target_existed"}}[simulatedEarlier > 0 && (tk == 3 || tk >= 6)]...), "target_"+targetKinds[tk], fmt.Sprintf("msg_%T", msg), fmt.Sprintf("accepted_%v", res.OK()), fmt.Sprintf("panic_%v", res.Panic != nil)), fmt.Sprintf("sender_%s_splitlike_accepted_%v", []string{"not_staking", "delegated_vesting", "delegated_free"}[senderDelegation], splitLike && res.OK()))...)
 	})
 }
